@@ -87,8 +87,9 @@ with open(os.path.join(SD, "README.md"), "w") as f:
     for sid, d, m in rows:
         c = m["confirmed_by_me"]
         others = "all exit 0" if not m["checks_with_machinery_exit"] else "machinery exit: " + ",".join(m["checks_with_machinery_exit"])
+        esc = lambda t: t.replace("|", "\\|")
         f.write(
-            f"| {sid} | {d['property']} | {d['change']} | {d['needs']} | {'yes' if c['suite_passes_with_change'] else 'NO'} | "
+            f"| {sid} | {d['property']} | {esc(d['change'])} | {esc(d['needs'])} | {'yes' if c['suite_passes_with_change'] else 'NO'} | "
             f"{'fails' if c['demonstration_fails_with_change'] else 'DOES NOT FAIL'} / {'passes' if c['demonstration_passes_without_change'] else 'DOES NOT PASS'} | "
             f"{', '.join(m['checks_reporting_a_violation']) or '**none**'} | {others} |\n"
         )
